@@ -119,7 +119,7 @@ def fill(b, t, rnd, out):
     out += bytes(buf)
 
 
-def gen_project(rnd, n_tags=12, programs=1, junk=True, big_tags=None, iid_base=None, wide=None):
+def gen_project(rnd, n_tags=12, programs=1, junk=True, big_tags=None, iid_base=None, wide=None, twin=False):
     b = Builder(rnd)
     symbols, mem = [], {}
     # types
@@ -143,6 +143,11 @@ def gen_project(rnd, n_tags=12, programs=1, junk=True, big_tags=None, iid_base=N
         codes = [0xC1, 0xC2, 0xC3, 0xC4, 0xC1, 0xCA, 0xC1]
         widet = b.udt("Wide", [("Member_%02d_%s" % (j, "n" * rnd.randint(0, 24)), atomic(codes[(j * 5 + nm) % len(codes)]), 0) for j in range(nm)])
         udts.append(widet)
+    twint = None
+    if twin:
+        # a structure that a later program download redefines with the same member names, offsets and size but other types
+        twint = b.udt("Twin", [("a", atomic(0xC4), 0), ("b", atomic(0xCA), 0), ("n", atomic(0xC3), 0), ("u", atomic(0xC7), 0), ("t", strs[1], 0)])
+        udts.append(twint)
     iid = iid_base if iid_base is not None else rnd.choice([1, 200, 250, 65500, 70000])
 
     def add(name, t, dims, scope="", kind="tag", **kw):
@@ -186,6 +191,10 @@ def gen_project(rnd, n_tags=12, programs=1, junk=True, big_tags=None, iid_base=N
             add(nm, rnd.choice(udts + strs), rnd.choice([[], [2]]))
     if widet is not None:
         add("WideTag", widet, [])
+    if twint is not None:
+        add("TwinTag", twint, [])
+        add("TwinArr", twint, [2])
+        add("PlainD", atomic(0xC4), [])
     for spec in (big_tags or []):
         add(spec["name"], spec["type"] if "type" in spec else atomic(spec["code"]), spec["dims"])
     progs = ["Main", "P2", "Prog_odd"][:programs]
@@ -217,3 +226,36 @@ def gen_project(rnd, n_tags=12, programs=1, junk=True, big_tags=None, iid_base=N
 def small_project(rnd):
     proj, mem, _ = gen_project(rnd, n_tags=3, programs=1, junk=False)
     return proj, mem
+
+
+def redownload(proj, mem, rnd):
+    """The project after a new program download: the same tag names, but the Twin structure has its DINT / REAL (and INT /
+    UINT) members exchanged behind the same template id, every symbol got another instance id, and the memory of the
+    redefined tags is new.  -> (project, mem)"""
+    import copy
+    p2, m2 = copy.deepcopy(proj), copy.deepcopy(mem)
+    swap = {0xC4: 0xCA, 0xCA: 0xC4, 0xC3: 0xC7, 0xC7: 0xC3}
+    twin_tid = None
+    for tid, tp in p2["templates"].items():
+        if tp["name"] == "Twin":
+            twin_tid = int(tid)
+            for m in tp["members"]:
+                if m["type"]["k"] == "atomic" and m["type"]["code"] in swap:
+                    m["type"] = atomic(swap[m["type"]["code"]])
+            tp["handle"] = (tp["handle"] * 7 + 11) % 65521 + 1
+    delta = rnd.choice([1, 2, 9])
+    for s in p2["symbols"]:
+        s["iid"] += delta
+
+    class _B:                                    # just enough of Builder for fill()
+        templates = p2["templates"]
+    for s in p2["symbols"]:
+        if s["kind"] == "tag" and s["type"]["k"] == "struct" and s["type"]["tid"] == twin_tid:
+            n = 1
+            for d in s["dims"]:
+                n *= d or 1
+            out = bytearray()
+            for _ in range(n):
+                fill(_B, s["type"], rnd, out)
+            m2[s["scope"] + "|" + s["name"]] = list(out)
+    return p2, m2
